@@ -103,7 +103,8 @@ fn program_of(kind: &Kind, cin: usize, contracts: &[ContentAddress]) -> Vec<Op> 
 struct Built { pred: Predicate, programs: Vec<Program>, data_keys: Vec<Key>, data_muts: Vec<Mutation> }
 
 /// Abstract random DAG -> numbering with non-leaves first (arbitrary, usually non-topological order) -> CSR encoding.
-fn gen_dag(rng: &mut Rng, contracts: &[ContentAddress], keys: &[Key]) -> Built {
+/// `hints`: (key, value) pairs the solution is going to declare; some leaves require exactly that value in the post state.
+fn gen_dag(rng: &mut Rng, contracts: &[ContentAddress], keys: &[Key], hints: &[(Key, Word)]) -> Built {
     let n = rng.range(1, 8) as usize;
     // edges from lower to higher topological label
     let mut ch: Vec<Vec<usize>> = vec![vec![]; n];
@@ -157,7 +158,8 @@ fn gen_dag(rng: &mut Rng, contracts: &[ContentAddress], keys: &[Key]) -> Built {
                     match rng.below(24) { 0 => { words.pop(); } 1 => { words = vec![1, -1]; } 2 => { words = vec![2, 1, 5]; } _ => {} }
                     Kind::LeafData(words)
                 }
-                _ => Kind::LeafPostCheck(key, if rng.chance(1, 5) { Some(rng.range(0, 90)) } else { None }),
+                _ => if !hints.is_empty() && rng.chance(2, 3) { let h = rng.pick(hints).clone(); Kind::LeafPostCheck(h.0, Some(h.1)) }
+                     else { Kind::LeafPostCheck(key, if rng.chance(1, 5) { Some(rng.range(0, 90)) } else { None }) },
             };
         }
     }
@@ -176,7 +178,8 @@ fn gen_dag(rng: &mut Rng, contracts: &[ContentAddress], keys: &[Key]) -> Built {
             }
         }
         let addr = essential_hash::content_addr(&prog);
-        let edge_start = if is_leaf[*lab] { u16::MAX } else { edges.len() as u16 };
+        // a leaf is a node with an empty edge range: usually spelled Edge::MAX, now and then as an empty in-range slice
+        let edge_start = if is_leaf[*lab] && !rng.chance(1, 4) { u16::MAX } else { edges.len() as u16 };
         let mut cs: Vec<u16> = ch[*lab].iter().map(|v| num[*v] as u16).collect();
         if rng.chance(1, 2) { cs.reverse(); }
         edges.extend(cs);
@@ -202,7 +205,7 @@ fn gen_raw(rng: &mut Rng) -> Built {
     }
     let pred0 = Predicate { nodes: nodes.clone(), edges: edges.clone() };
     for (i, nd) in nodes.iter_mut().enumerate() {
-        let leaf = pred0.node_edges(i).map(|e| e.is_empty()).unwrap_or(true);
+        let leaf = catch_unwind(AssertUnwindSafe(|| pred0.node_edges(i).map(|e| e.is_empty()))).ok().flatten().unwrap_or(true);
         let prog = Program(asm::to_bytes(if leaf { vec![push(if rng.chance(1, 10) { 0 } else { 1 })] } else { vec![] }).collect());
         nd.program_address = essential_hash::content_addr(&prog);
         programs.push(prog);
@@ -251,11 +254,7 @@ pub fn gen_case(rng: &mut Rng) -> GCase {
     let mut preds = vec![]; let mut programs = vec![]; let mut sols = vec![];
     let mut proposed: Vec<(ContentAddress, Vec<Key>)> = vec![];   // per solution: contract and every key it may propose
     for i in 0..nsol {
-        let b = if raw { gen_raw(rng) } else { gen_dag(rng, &contracts, &keys) };
-        let paddr = essential_hash::content_addr(&b.pred);
         let c = contracts[if rng.chance(1, 2) { 0 } else { i % 2 }].clone();
-        for (nd, pr) in b.pred.nodes.iter().zip(b.programs.iter()) { programs.push((nd.program_address.clone(), pr.0.clone())); }
-        preds.push((c.clone(), paddr.clone(), b.pred));
         // declared mutations: distinct keys within a solution and, to stay outside known finding F10, a key is declared
         // for a contract by at most one solution (cases inside F10's class are generated separately)
         let mut muts: Vec<Mutation> = vec![];
@@ -264,6 +263,11 @@ pub fn gen_case(rng: &mut Rng) -> GCase {
             let taken = sols.iter().any(|s: &Solution| s.predicate_to_solve.contract == c && s.state_mutations.iter().any(|m| m.key == k));
             if !muts.iter().any(|m| m.key == k) && !taken { muts.push(Mutation { key: k, value: if rng.chance(1, 5) { vec![] } else { vec![rng.range(1, 90)] } }); }
         }
+        let hints: Vec<(Key, Word)> = muts.iter().filter(|m| m.value.len() == 1).map(|m| (m.key.clone(), m.value[0])).collect();
+        let b = if raw { gen_raw(rng) } else { gen_dag(rng, &contracts, &keys, &hints) };
+        let paddr = essential_hash::content_addr(&b.pred);
+        for (nd, pr) in b.pred.nodes.iter().zip(b.programs.iter()) { programs.push((nd.program_address.clone(), pr.0.clone())); }
+        preds.push((c.clone(), paddr.clone(), b.pred));
         // now and then the solution declares exactly (same key, same value) what one of its data outputs computes
         if rng.chance(1, 6) { if let Some(m) = b.data_muts.first() { if !muts.iter().any(|x| x.key == m.key) { muts.push(m.clone()); } } }
         proposed.push((c.clone(), muts.iter().map(|m| m.key.clone()).chain(b.data_keys.iter().cloned()).collect()));
@@ -288,8 +292,17 @@ fn coq_pred(p: &Predicate) -> String {
 
 pub fn run_case(c: &GCase) -> (String, serde_json::Value, bool) { run_case_in(c, None, 0) }
 
+/// What one run of the two-pass entry point returned, in the canonical form compared with the model.
+#[derive(Clone)]
+pub struct Outcome { pub res: i64, pub gas: u64, pub sols: Vec<Solution>, pub errs: Vec<(i64, i64, Vec<i64>)>, pub err_sol: i64, pub runs: Vec<chk::verif::Run>, pub no_result: bool }
+
 /// Runs the case inside the given rayon pool (or the global one) with the given jitter seed (0 = none).
 pub fn run_case_in(c: &GCase, pool: Option<&rayon::ThreadPool>, jitter_seed: u64) -> (String, serde_json::Value, bool) {
+    let o = exec_case(c, pool, jitter_seed);
+    render(c, &o)
+}
+
+pub fn exec_case(c: &GCase, pool: Option<&rayon::ThreadPool>, jitter_seed: u64) -> Outcome {
     let get_pred: Arc<HashMap<PredicateAddress, Arc<Predicate>>> = Arc::new(c.preds.iter().map(|(ca, pa, p)|
         (PredicateAddress { contract: ca.clone(), predicate: pa.clone() }, Arc::new(p.clone()))).collect());
     let get_prog = JitterPrograms(Arc::new(c.programs.iter().map(|(a, b)| (a.clone(), Arc::new(Program(b.clone())))).collect()), jitter_seed);
@@ -322,7 +335,12 @@ pub fn run_case_in(c: &GCase, pool: Option<&rayon::ThreadPool>, jitter_seed: u64
         Ok(Err(_)) => { res = 4; }
         Err(_) => { res = 4; }
     }
-    let events = list_of(&runs, |(sol, node, inputs, mode)| format!("({}, {}, {}, {})", if *mode == RunMode::Outputs { 0 } else { 1 }, sol, node,
+    Outcome { res, gas, sols, errs, err_sol, runs, no_result: false }
+}
+
+pub fn render(c: &GCase, o: &Outcome) -> (String, serde_json::Value, bool) {
+    let (res, gas, sols, errs, err_sol, runs) = (o.res, o.gas, &o.sols, &o.errs, o.err_sol, &o.runs);
+    let events = list_of(runs, |(sol, node, inputs, mode)| format!("({}, {}, {}, {})", if *mode == RunMode::Outputs { 0 } else { 1 }, sol, node,
         list_of(inputs, |io| format!("({}, {})", zlist(io.0.iter().copied()), zlist(io.1.iter().copied())))));
     let state_lit = list_of(&c.state.iter().collect::<Vec<_>>(), |(ca, m)| format!("({}, {})", blist(&ca.0),
         list_of(&m.iter().collect::<Vec<_>>(), |(k, v)| format!("({}, {})", zlist(k.iter().copied()), zlist(v.iter().copied())))));
@@ -330,12 +348,13 @@ pub fn run_case_in(c: &GCase, pool: Option<&rayon::ThreadPool>, jitter_seed: u64
         list_of(&c.preds, |(ca, pa, p)| format!("({}, {}, {})", blist(&ca.0), blist(&pa.0), coq_pred(p))),
         list_of(&c.programs, |(a, b)| format!("({}, {})", blist(&a.0), blist(b))),
         list_of(&c.sols, coq_solution), state_lit, coq_bool(c.collect_all), 4000,
-        res, gas, list_of(&sols, coq_solution), list_of(&errs, |e| format!("({}, {}, {})", e.0, e.1, zlist(e.2.iter().copied()))), err_sol, events);
+        res, gas, list_of(sols, coq_solution), list_of(errs, |e| format!("({}, {}, {})", e.0, e.1, zlist(e.2.iter().copied()))), err_sol, events);
     let mut desc = json!({"family": c.family, "solutions": c.sols.len(), "nodes": c.preds.iter().map(|p| p.2.nodes.len()).collect::<Vec<_>>(),
         "edges": c.preds.iter().map(|p| p.2.edges.clone()).collect::<Vec<_>>(), "edge_starts": c.preds.iter().map(|p| p.2.nodes.iter().map(|n| n.edge_start).collect::<Vec<_>>()).collect::<Vec<_>>(),
         "collect_all": c.collect_all, "impl_res": res, "gas": gas, "runs": runs.len(),
         "declared": c.sols.iter().map(|s| s.state_mutations.iter().map(|m| (m.key.clone(), m.value.clone())).collect::<Vec<_>>()).collect::<Vec<_>>()});
     if let Some(k) = c.known_class { desc["known_class"] = json!(k); }
+    if o.no_result { desc["no_result"] = json!("the entry point did not return within the watchdog's time limit"); }
     // canonical form for comparing runs under different schedules: the recorded events as a sorted multiset
     let mut evs: Vec<String> = runs.iter().map(|r| format!("{:?}", r)).collect();
     evs.sort();
@@ -419,33 +438,47 @@ pub fn run_sched(a: &Args) {
     let mut out = Out::new("From EB Require Import Corr.RunGraph.", "graph_case", &["graph_mismatches", "graph_spec_failures"]);
     out.only = a.only;
     let sizes = [1usize, 2, 3, 4, 8, 16];
-    let pools: Vec<rayon::ThreadPool> = sizes.iter().map(|n| rayon::ThreadPoolBuilder::new().num_threads(*n).build().unwrap()).collect();
+    let pools: Vec<Arc<rayon::ThreadPool>> = sizes.iter().map(|n| Arc::new(rayon::ThreadPoolBuilder::new().num_threads(*n).build().unwrap())).collect();
+    let limit = std::time::Duration::from_secs(std::env::var("EBH_WATCHDOG_SECS").ok().and_then(|s| s.parse().ok()).unwrap_or(120));
     let mut id = 0u64;
     let mut cases: Vec<GCase> = corpus();
     for i in 0..a.count as u64 { let mut rng = Rng::for_case(a.seed, 2, i); cases.push(gen_case(&mut rng)); }
+    let cases: Vec<Arc<GCase>> = cases.into_iter().map(Arc::new).collect();
+    let mut hung = false;
     for c in &cases {
         if a.only.map(|o| o == id).unwrap_or(true) {
-            let mut lits = vec![];
+            let mut outs: Vec<Outcome> = vec![];
             for (k, p) in pools.iter().enumerate() {
-                let (lit, d, nt) = run_case_in(c, Some(p), a.seed.wrapping_add(id * 31 + k as u64) | 1);
-                lits.push((lit, d, nt));
+                // watchdog: the run happens on its own thread; a run that does not come back is itself a result
+                // ("every schedule returns the same result" fails), after which this process cannot go on
+                let (tx, rx) = std::sync::mpsc::channel();
+                let (c2, p2, js) = (c.clone(), p.clone(), a.seed.wrapping_add(id * 31 + k as u64) | 1);
+                std::thread::spawn(move || { let o = exec_case(&c2, Some(&p2), js); let _ = tx.send(o); });
+                match rx.recv_timeout(limit) {
+                    Ok(o) => outs.push(o),
+                    Err(_) => { hung = true; outs.push(Outcome { res: 4, gas: 0, sols: vec![], errs: vec![], err_sol: 0, runs: vec![], no_result: true }); break; }
+                }
             }
+            let mut lits: Vec<(String, serde_json::Value, bool)> = outs.iter().map(|o| render(c, o)).collect();
             let first = lits[0].1["canon"].clone();
             let differing: Vec<usize> = lits.iter().enumerate().filter(|(_, l)| l.1["canon"] != first).map(|(k, _)| sizes[k]).collect();
-            let pick = (id as usize) % lits.len();
+            let pick = if hung { lits.len() - 1 } else { (id as usize) % lits.len() };
             let (mut lit, mut d, nt) = lits.swap_remove(pick);
             d["pool_sizes"] = json!(sizes); d["pools_disagree"] = json!(differing);
-            if !differing.is_empty() {
+            if !differing.is_empty() && !hung {
                 // make the disagreement visible to the specification check: the run counts as a failure of determinism
                 lit = lit.replacen("%N 0 ", "%N 4 ", 1).replacen("%N 1 ", "%N 4 ", 1).replacen("%N 2 ", "%N 4 ", 1).replacen("%N 3 ", "%N 4 ", 1);
                 out.bump("pools_disagree");
             }
+            if hung { out.bump("no_result_within_time_limit"); }
             out.bump("cases_x6_pools");
             out.push(id, lit, d, nt);
+            if hung { break; }
         }
         id += 1;
     }
     out.write(&a.out, a.shards, "sched");
+    if hung { std::process::exit(0); }   // worker threads of the stuck pool never finish
 }
 
 /// Engine `post`: read_or_fallback and next_key through the verification hook (C03).
@@ -578,7 +611,7 @@ pub fn run_helpers(a: &Args) {
     let contracts: Vec<ContentAddress> = (0..2).map(|i| ContentAddress([0x10 + i as u8; 32])).collect();
     for i in 0..a.count as u64 {
         let mut rng = Rng::for_case(a.seed, 6, i);
-        let b = if rng.chance(1, 2) { gen_raw(&mut rng) } else { gen_dag(&mut rng, &contracts, &key_pool()) };
+        let b = if rng.chance(1, 2) { gen_raw(&mut rng) } else { gen_dag(&mut rng, &contracts, &key_pool(), &[]) };
         let p = &b.pred;
         let n = p.nodes.len();
         let seeds: Vec<usize> = (0..n).filter(|_| rng.chance(1, 5)).collect();
